@@ -34,7 +34,7 @@ RULE = (
     "set iteration order) with all n! orders for n<=3 and the reduced move set {identity, reversal, adjacent transpositions, "
     "rotations} for n>=4, deviation bound 1 (quick) / 2 (thorough), unbounded for configurations with <=3 files; argument "
     "spellings (absolute/relative/symlink/str, lookup list orders, duplicates, root in lookups, alias); directory sets "
-    "(nested / same-name / case-differing) x allow_root_namespace_name_collision; 4 configurations under 20 parent directories whose names are special to "
+    "(nested / same-name / case-differing; 1..3 directories for every root, 5 and 7 directories for two roots) x allow_root_namespace_name_collision; 4 configurations under 20 parent directories whose names are special to "
     "globbing / shells / hidden-file conventions (absolute and relative); call histories: every ordered pair (thorough: triple) of 10 operations over two same-named "
     "trees in ONE process, sharing the lookup list object, relative spellings under changing working directories and a re-pointed symlink, each compared with "
     "its outcome as the only call of a fresh interpreter. Non-trivial iff the schedule has a choice "
@@ -409,8 +409,10 @@ def check_dirsets(case, R):
         ws.write_tree(base, {"a/ra/A.1.0.dsdl": "@sealed\n", "a/rb/B.1.0.dsdl": "@sealed\n", "b/ra/C.1.0.dsdl": "@sealed\n", "b/RA/D.1.0.dsdl": "@sealed\n", "b/rb/deep/rc/E.1.0.dsdl": "@sealed\n", "a/ra/sub/F.1.0.dsdl": "@sealed\n", "a/rb/x/G.1.0.dsdl": "@sealed\n", "a/ra/sub/deep/H.1.0.dsdl": "@sealed\n", "a/rb/x/y/z/I.1.0.dsdl": "@sealed\n", "b/rb/J.1.0.dsdl": "@sealed\n"})
         for root in DIRSET_DIRS[:4] + DIRSET_DIRS[7:9]:
             others = [d for d in DIRSET_DIRS if d != root]
-            for k in (0, 1, 2):
+            for k in (0, 1, 2, 4, 6):
                 for lk in itertools.combinations(others, k):
+                    if k >= 4 and root not in DIRSET_DIRS[:2]:
+                        continue  # large directory sets: two roots only
                     for allow in (True, False):
                         dirs = [root] + list(lk)
                         nested = any(a != b and (b + "/").startswith(a + "/") for a in dirs for b in dirs)
